@@ -485,6 +485,7 @@ theorem rowsDone_single (ord row : Nat) (fx : Fx) (st : ScanSt) (hw : fx.WF)
     rw [visitStep_cnt _ _ _ _ hw, cntAt_cntInc_eq _ _ _ hlen hrl, hf0]
   · rw [visitStep_trace]; simp [rowSeq]
   · rw [visitStep_trace_full _ _ _ _ hw]; simp [recSeq]
+  · rw [visitStep_rct]; simp
   · intro _; exact ⟨visitStep_anyValid .., visitStep_osv ..⟩
   · intro h; simp at h
 
@@ -510,6 +511,7 @@ theorem rowsDone_append (ord row : Nat) (a b : List Fx) (st st1 st2 : ScanSt)
     · exact h2.visited r (by omega) (by omega)
   · rw [h2.trace, h1.trace, List.length_append, rowSeq_append]; simp
   · rw [h2.recs, h1.recs, recSeq_append, h1.speed, h1.bpm, h1.rowStart]; simp
+  · rw [h2.rct, h1.rct, List.length_append]; omega
   · intro hne
     by_cases hb : b = []
     · subst hb
@@ -535,10 +537,12 @@ theorem scan_pattern (ord : Nat) (pre : List Fx) (last : Fx) (post : List Fx) (r
     (hpre : ∀ fx ∈ pre, fx.isJump = false ∧ fx.WF) (hlw : last.WF)
     (hlast : last.isJump = true ∨ post = [])
     (hfresh : ∀ r, row ≤ r → cntAt st.cnt ord r = 0) (hb : 20 ≤ st.bpm)
-    (hlen : ord < st.cnt.length) (hrl : row + (pre.length + 1) ≤ (st.cnt.getD ord []).length) :
+    (hlen : ord < st.cnt.length) (hrl : row + (pre.length + 1) ≤ (st.cnt.getD ord []).length)
+    (hgl : st.rowCountTotal + (pre.length + 1) ≤ rowLimit + 1) :
     ∃ st', scanRows ord (pre ++ last :: post) row st = .done st' (ord2After last) ∧
       RowsDone ord row (pre ++ [last]) st st' := by
-  obtain ⟨st1, he1, hd1⟩ := scanRows_nojump_app ord (last :: post) pre row st hpre hfresh hb hlen (by omega)
+  obtain ⟨st1, he1, hd1⟩ := scanRows_nojump_app ord (last :: post) pre row st hpre hfresh hb hlen (by omega) (by omega)
+  have hg1 : st1.rowCountTotal ≤ rowLimit := by rw [hd1.rct]; omega
   have hb1 : 20 ≤ st1.bpm := by rw [hd1.bpm]; exact rowsBpm_ge _ _ hb
   have hf1 : cntAt st1.cnt ord (row + pre.length) = 0 := by
     rw [hd1.other ord _ (by omega)]; exact hfresh _ (by omega)
@@ -553,14 +557,14 @@ theorem scan_pattern (ord : Nat) (pre : List Fx) (last : Fx) (post : List Fx) (r
       cases last <;> simp [Fx.isJump] at hlj
       exact ⟨_, rfl⟩
     subst hj'
-    rw [scanRows_cons_jump ord j post _ st1 hb1 hf1]; rfl
+    rw [scanRows_cons_jump ord j post _ st1 hb1 hf1 hg1]; rfl
   | false =>
     have hpost : post = [] := by
       rcases hlast with h | h
       · rw [hlj] at h; cases h
       · exact h
     subst hpost
-    rw [scanRows_cons_fresh ord last [] _ st1 hb1 hf1 hlj]
+    rw [scanRows_cons_fresh ord last [] _ st1 hb1 hf1 hlj hg1]
     have : ord2After last = none := by cases last <;> simp [Fx.isJump] at hlj <;> rfl
     rw [this]; simp [scanRows]
 
